@@ -199,7 +199,9 @@ impl Group for EnfGroup {
         let f = |s: &str| -> Vec<String> { s.split('|').map(|x| x.trim().to_string()).collect() };
         let mut v = vec![
             // happy path with every disclosure route, then the u64 edge requests
-            f("getsecret 0|getsecretnone 0|hgetpoint 4 1|setup|validate 0 0 1 1 2|activate|validate 1 1 1 1 1|getsecret 0|revoke 1|getsecret 0|getsecretnone 0|getsecret 1|validate 2 2 1 1 2|hrevoke 6 1|hgetpoint 4 3|hgetpoint 4 4|restart|getsecret 1|getsecret 2|revoke 18446744073709551615|restart|getsecret 18446744073709551615|restart|getsecretnone 18446744073709551614|restart|hrevoke 6 18446744073709551614|restart|getsecret 1|getsecret 2"),
+            f("getsecret 0|getsecretnone 0|hgetpoint 4 1|setup|validate 0 0 1 1 2|activate|validate 1 1 1 1 1|getsecret 0|revoke 1|getsecret 0|getsecretnone 0|getsecret 1|validate 2 2 1 1 2|hrevoke 6 1|hgetpoint 4 3|hgetpoint 4 4|restart|getsecret 1|getsecret 2|revoke 18446744073709551615|getsecret 18446744073709551615|getsecret 18446744073709551614|getsecretnone 18446744073709551615|getsecretnone 18446744073709551614|hrevoke 6 18446744073709551614|revoke 18446744073709551614|hgetpoint 4 18446744073709551615|getsecret 1|getsecret 2|hrevoke 6 18446744073709551615|restart|getsecret 1"),
+            // F13 witness (fixed by 0078200): u64::MAX / u64::MAX-1 against the secret-release guards
+            f("getsecret 18446744073709551615|getsecretnone 18446744073709551614|setup|getsecret 18446744073709551615|getsecretnone 18446744073709551615|validate 0 0 1 1 2|activate|getsecret 18446744073709551615|getsecret 18446744073709551614|getsecretnone 18446744073709551614|revoke 18446744073709551615|hrevoke 5 18446744073709551614|validate 1 1 1 1 2|revoke 1|getsecret 18446744073709551615|revoke 18446744073709551615|getsecret 0"),
             // F1 witness (fixed by 208b946): validate n+1, sign n, revoke n
             f("setup|validate 0 0 1 1 2|activate|validate 1 1 1 1 2|signholder 0|revoke 1|getsecret 0|restart|revoke 1|hrevoke 6 0"),
             // invalid signatures never open the way to a secret
